@@ -355,3 +355,43 @@ func (fi *FuncInfo) MustPass(from ssa.Instruction, to ssa.Instruction, via func(
 	}
 	return !scan(fb, fidx)
 }
+
+// ImpliesEdge decides (PC(pred) ∧ cond(pred→succ)) ⇒ r.
+func (v *PCView) ImpliesEdge(pred, succ *ssa.BasicBlock, r *Formula) (bool, []string) {
+	pc := v.Block(pred).and(v.tableOf(v.fi.EdgeCond(pred, succ)))
+	rt := v.tableOf(r)
+	ok := true
+	for i := range pc {
+		if pc[i]&^rt[i] != 0 {
+			ok = false
+		}
+	}
+	var have []string
+	if pc.empty() {
+		return true, []string{"<unreachable>"}
+	}
+	for i, a := range v.atoms {
+		allT, allF := true, true
+		for m := 0; m < 1<<uint(len(v.atoms)); m++ {
+			if !pc.get(m) {
+				continue
+			}
+			if m&(1<<uint(i)) != 0 {
+				allF = false
+			} else {
+				allT = false
+			}
+		}
+		if allT {
+			have = append(have, a)
+		} else if allF {
+			have = append(have, "¬"+a)
+		}
+	}
+	return ok, have
+}
+
+// IsStructuralLiteral reports whether a literal only describes loop mechanics (range exhaustion, index bounds).
+func IsStructuralLiteral(lit string) bool {
+	return strings.Contains(lit, "rangeok:") || strings.Contains(lit, "lt0(len(")
+}
